@@ -38,7 +38,7 @@ Definition res {A} (m : C A) : A := fst m.
 Definition depth {A} (m : C A) : nat := snd m.
 Definition ret {A} (a : A) : C A := (a, O).
 Definition bind {A B} (m : C A) (f : A -> C B) : C B :=
-  (fst (f (fst m)), Nat.max (snd m) (snd (f (fst m)))).
+  let r := f (fst m) in (fst r, Nat.max (snd m) (snd r)).   (* [f] is run once *)
 Definition call {A} (m : C A) : C A := (fst m, S (snd m)).
 (* a callee that calls nothing we model (a caller-supplied matcher, io::Write::write_all, ...) *)
 Definition leaf {A} (a : A) : C A := call (ret a).
